@@ -33,7 +33,26 @@
 //! `valid` (parses without errors), `synerr`, `lexerr`, each `+mlpragma` when a pragma spans lines;
 //! the cause feature of a glued token pair is (observed spacing style, left token kind, what the
 //! pair became) — the inputs of the formatter's gluing decision; for range / on-type edits it is
-//! whether whole-document formatting changes the number of lines.
+//! whether whole-document formatting changes the number of lines. A token / comment / pragma /
+//! string whose text only gained blanks at one place has the feature `padded:<kind>`, with
+//! `@assign-op` when the blanks sit directly in front of the text `:=` / `=>` (the column the
+//! text-based assignment alignment pads).
+//!
+//! Family (v) `align` (added after a missed change: the mask that keeps the text-based alignment
+//! pass away from lines with string literals was narrowed): the post passes of the formatter search
+//! the *text* of a formatted line for `:=` / `=>` / `,`; what protects literals, comments and
+//! pragmas are per-line masks. The family therefore puts assignment-operator text inside every kind
+//! of special token (STRING / WSTRING, with comma, multi-byte characters, `$'`, tab; `(* *)`,
+//! `/* */`, `//`, pragma) on a "victim" line — before any real operator of the line, after it, on a
+//! line without one, on the continuation line of a statement — next to a "neighbour" line whose real
+//! operator sits at a larger / smaller column (long name, `=>` call, very long left-hand side, FOR
+//! header), in every place where the formatter aligns (statement list, IF body, CASE branch, CASE
+//! label lines, multi-line call arguments, VAR declarations with initialisers, multi-line
+//! initialiser call inside VAR, STRUCT fields), in both orders, adjacent or separated by a blank /
+//! comment / pragma line, with LF / CRLF and with the source already indented by 4 blanks / 2
+//! blanks / tab (lines passed through verbatim then share the indentation of their formatted
+//! neighbours). Also operator text that only exists across two tokens (`<=` `>` written apart), and
+//! `,` (the split text of the wrapping pass, which shares the masks) inside long specials.
 //!
 //! Mechanics: requests of a window of texts are pipelined on one connection (the reader thread
 //! drains the server continuously; server->client requests are answered at once); a window in which
@@ -965,6 +984,24 @@ pub struct Diff {
     what: String,
 }
 
+/// `y` is `x` with blanks inserted at exactly one place: the cause-feature suffix saying where
+/// (`@assign-op`: directly in front of the text `:=` / `=>`, else empty).
+fn padded_where(x: &str, y: &str) -> Option<&'static str> {
+    if y.len() <= x.len() {
+        return None;
+    }
+    let p = x.char_indices().zip(y.chars()).find(|((_, a), b)| a != b).map(|((i, _), _)| i).unwrap_or(x.len());
+    let rest = &x[p..];
+    if !y.is_char_boundary(p) || !y.ends_with(rest) || y.len() - rest.len() < p {
+        return None;
+    }
+    let mid = &y[p..y.len() - rest.len()];
+    if mid.is_empty() || !mid.chars().all(|c| c == ' ' || c == '\t') {
+        return None;
+    }
+    Some(if rest.starts_with(":=") || rest.starts_with("=>") { "@assign-op" } else { "" })
+}
+
 /// tokens clause; `None` = same sequence
 fn diff_tokens(a: &View, b: &View) -> Option<Diff> {
     let n = a.toks.len().min(b.toks.len());
@@ -990,6 +1027,10 @@ fn diff_tokens(a: &View, b: &View) -> Option<Diff> {
                 // cause tuple of a glued pair: (left token kind, what the pair turned into); the
                 // spacing style in effect is added by the caller
                 _ if opener => format!("glue:{}->comment", kind_name(x.0)),
+                // same token, blanks inserted inside its text (a text-based post pass acted inside it)
+                Some(y) if x.0 == y.0 && a.toks.len() == b.toks.len() && padded_where(&x.1, &y.1).is_some() => {
+                    format!("padded:{}{}", kind_name(x.0), padded_where(&x.1, &y.1).unwrap_or(""))
+                }
                 Some(y) if cat.as_ref().is_some_and(|c| y.1.len() > x.1.len() && lower(&y.1).starts_with(&lower(&x.1)) && (lower(&y.1).starts_with(c.as_str()) || c.starts_with(&lower(&y.1)))) => {
                     format!("glue:{}->{}", kind_name(x.0), kind_name(y.0))
                 }
@@ -1025,6 +1066,10 @@ fn diff_specials(a: &View, b: &View) -> Option<Diff> {
         i += 1;
     }
     let (feature, what) = match (a.specials.get(i), b.specials.get(i)) {
+        (Some(x), Some(y)) if a.specials.len() == b.specials.len() && x.0 == y.0 && padded_where(&x.1, &y.1).is_some() => (
+            format!("padded:{:?}{}", x.0, padded_where(&x.1, &y.1).unwrap_or("")),
+            format!("blanks were inserted inside {:?} {:?}: {:?}", x.0, clip(&x.1, 60), clip(&y.1, 60)),
+        ),
         (Some(x), Some(y)) if a.specials.len() == b.specials.len() => (
             format!("changed:{:?}", x.0),
             format!("{:?} {:?} became {:?} {:?}", x.0, clip(&x.1, 60), y.0, clip(&y.1, 60)),
@@ -1140,6 +1185,9 @@ pub struct Stats {
     lexerr: u64,
     valid: u64,
     errors: u64,
+    /// family (v): bundles / bundles in whose result an operator was moved right by alignment
+    align_bundles: u64,
+    align_padded: u64,
     hashes: Vec<u64>,
 }
 
@@ -1157,6 +1205,8 @@ impl Stats {
         self.lexerr += o.lexerr;
         self.valid += o.valid;
         self.errors += o.errors;
+        self.align_bundles += o.align_bundles;
+        self.align_padded += o.align_padded;
         self.hashes.extend(o.hashes);
     }
 }
@@ -1386,6 +1436,12 @@ fn eval_window(
                 }
                 match apply_edits(&ti.text, &edits) {
                     Ok(f1) => {
+                        if family.starts_with("align") {
+                            lst.align_bundles += 1;
+                            if f1.contains("  :=") || f1.contains("  =>") {
+                                lst.align_padded += 1;
+                            }
+                        }
                         let s = &mut state[p.ti];
                         s.changed = f1 != ti.text;
                         s.wrapped = f1.matches('\n').count() != ti.text.matches('\n').count();
@@ -1866,6 +1922,277 @@ pub const CRAFTED: &[&str] = &[
 ];
 
 // ------------------------------------------------------------------------------------------------
+// family (v): alignment-sensitive line groups (see module comment)
+// ------------------------------------------------------------------------------------------------
+
+/// (nesting level relative to the first line, text)
+type Lines = Vec<(u8, String)>;
+
+fn one(s: String) -> Lines {
+    vec![(0, s)]
+}
+
+/// The places where the formatter's alignment passes act. `head` / `foot`: (absolute nesting
+/// level, text); the group of victim + neighbour lines is put between them at level `slot`.
+pub struct AlignCtx {
+    name: &'static str,
+    head: &'static [(u8, &'static str)],
+    slot: u8,
+    foot: &'static [(u8, &'static str)],
+    /// statement / element terminator of the group lines
+    term: &'static str,
+    /// whole statements (IF / FOR blocks allowed) rather than list elements
+    stmt: bool,
+    /// lines are declarations (own menus)
+    decl: bool,
+    /// the first line of victim and neighbour gets a CASE label
+    label: bool,
+}
+
+const HEAD_P: &[(u8, &str)] = &[(0, "PROGRAM p"), (1, "VAR"), (2, "x : INT;"), (2, "s : STRING;"), (1, "END_VAR")];
+pub const ALIGN_CTX: &[AlignCtx] = &[
+    AlignCtx { name: "body", head: HEAD_P, slot: 1, foot: &[(0, "END_PROGRAM")], term: ";", stmt: true, decl: false, label: false },
+    AlignCtx {
+        name: "if",
+        head: &[(0, "PROGRAM p"), (1, "VAR"), (2, "x : INT;"), (2, "s : STRING;"), (1, "END_VAR"), (1, "IF x = 1 THEN")],
+        slot: 2,
+        foot: &[(1, "END_IF;"), (0, "END_PROGRAM")],
+        term: ";",
+        stmt: true,
+        decl: false,
+        label: false,
+    },
+    AlignCtx {
+        name: "case",
+        head: &[(0, "PROGRAM p"), (1, "VAR"), (2, "x : INT;"), (2, "s : STRING;"), (1, "END_VAR"), (1, "CASE x OF"), (2, "1:")],
+        slot: 2,
+        foot: &[(1, "END_CASE;"), (0, "END_PROGRAM")],
+        term: ";",
+        stmt: true,
+        decl: false,
+        label: false,
+    },
+    AlignCtx {
+        name: "caselabel",
+        head: &[(0, "PROGRAM p"), (1, "VAR"), (2, "x : INT;"), (2, "s : STRING;"), (1, "END_VAR"), (1, "CASE x OF")],
+        slot: 2,
+        foot: &[(1, "END_CASE;"), (0, "END_PROGRAM")],
+        term: ";",
+        stmt: true,
+        decl: false,
+        label: true,
+    },
+    // multi-line call: positional / named arguments one per line
+    AlignCtx { name: "callargs", head: &[(0, "PROGRAM p"), (1, "VAR"), (2, "x : INT;"), (2, "s : STRING;"), (1, "END_VAR"), (1, "fb(")], slot: 1, foot: &[(1, "last := 1);"), (0, "END_PROGRAM")], term: ",", stmt: false, decl: false, label: false },
+    // multi-line initialiser inside a VAR block (colon alignment acts on the block as well); the
+    // parser knows no `(a := 1, b := 2)` struct initialiser, the valid spelling is a call
+    AlignCtx { name: "structinit", head: &[(0, "PROGRAM p"), (1, "VAR"), (2, "x : INT;"), (2, "st : t := mk(")], slot: 2, foot: &[(2, "last := 1);"), (1, "END_VAR"), (0, "END_PROGRAM")], term: ",", stmt: false, decl: false, label: false },
+    // declarations with initialisers
+    AlignCtx { name: "var", head: &[(0, "PROGRAM p"), (1, "VAR"), (2, "x : INT;")], slot: 2, foot: &[(1, "END_VAR"), (1, "x := 1;"), (0, "END_PROGRAM")], term: ";", stmt: false, decl: true, label: false },
+    AlignCtx { name: "struct", head: &[(0, "TYPE t :"), (1, "STRUCT"), (2, "x : INT;")], slot: 2, foot: &[(1, "END_STRUCT"), (0, "END_TYPE")], term: ";", stmt: false, decl: true, label: false },
+];
+
+/// The two texts the alignment pass searches for.
+const ALIGN_OPS: &[&str] = &[":=", "=>"];
+
+/// Victim lines of the statement / list contexts (`t` = terminator).
+fn align_victims(t: &str, stmt: bool) -> Vec<Lines> {
+    let mut v: Vec<Lines> = Vec::new();
+    for x in ALIGN_OPS {
+        // string literals: operator text before any real operator of the line / on a line without one
+        v.push(one(format!("Log('in{x}out'){t}")));
+        v.push(one(format!("Log(\"in{x}out\"){t}")));
+        v.push(one(format!("Log('{x}'){t}")));
+        v.push(one(format!("m['k{x}v'] := 1{t}")));
+        v.push(one(format!("Log('a,b{x}c'){t}")));
+        // 2- and 3-byte characters (one UTF-16 unit each) left of the operator text
+        v.push(one(format!("Log('\u{e4}\u{20ac}{x}b'){t}")));
+        v.push(one(format!("Log('it$'s{x}'){t}")));
+        v.push(one(format!("Log('a\t{x}b'){t}")));
+        // after the real operator; on the continuation line of a statement
+        v.push(one(format!("s := 'a{x}b'{t}")));
+        v.push(vec![(0, "s :=".to_string()), (0, format!("'a{x}b'{t}"))]);
+        if stmt {
+            v.push(vec![(0, format!("IF s = '{x}' THEN")), (1, "x := 1;".to_string()), (0, "END_IF;".to_string())]);
+        }
+        // comments and pragmas: before a real operator, on a line without one, behind the code, alone
+        for c in [format!("(* a {x} b *)"), format!("{{attr 'a {x} b'}}")] {
+            v.push(one(format!("{c} y := 1{t}")));
+            v.push(one(format!("{c} Log(1){t}")));
+            v.push(one(format!("Log(1){t} {c}")));
+            v.push(one(c.clone()));
+        }
+        v.push(one(format!("/* \u{e4}\u{20ac}{x}b */ Log(1){t}")));
+        v.push(one(format!("Log(1){t} // a {x} b")));
+        v.push(one(format!("// a {x} b")));
+        // tab in front of the real operator on a line that is passed through verbatim
+        v.push(one(format!("y\t:= 1{t} // a {x} b")));
+    }
+    // operator text that only exists across two tokens (never valid code: stratum synerr)
+    v.push(one(format!("y <= > z{t}")));
+    v.push(one(format!("y >= > z{t}")));
+    v.push(one(format!("p ?= > q{t}")));
+    // typed literal with ':' behind the real operator
+    v.push(one(format!("w := TOD#12:00:00{t}")));
+    // the wrapping pass shares the masks of the alignment pass: its split text `,` inside a
+    // string / comment / pragma on a line longer than every maximum line length of the menu
+    v.push(one(format!("Log('a, b, c, d, e, f, g, h, i, j, k, l'){t}")));
+    v.push(one(format!("Log(1){t} // a, b, c, d, e, f, g, h, i, j, k, l")));
+    v.push(one(format!("(* a, b, c, d, e, f, g, h, i, j, k, l *) Log(1){t}")));
+    v.push(one(format!("{{attr 'a, b, c, d, e, f, g, h, i, j'}} Log(1){t}")));
+    if stmt {
+        // `:=` of a FOR header
+        v.push(vec![(0, "FOR i := 1 TO 3 DO".to_string()), (1, "x := x + i;".to_string()), (0, "END_FOR;".to_string())]);
+    }
+    v
+}
+
+/// Neighbour lines: a real operator right of / left of every victim's operator text.
+fn align_neighbours(t: &str, stmt: bool) -> Vec<Lines> {
+    let mut v = vec![
+        one(format!("neighbour_with_long_name := 2{t}")),
+        one(format!("z := 2{t}")),
+        one(format!("fb_call_with_long_name(o => z){t}")),
+        one(format!("{}x := 3{t}", "a_very_long_left_hand_side_".repeat(5))),
+    ];
+    if stmt {
+        v.push(vec![(0, "FOR long_loop_index_name := 1 TO 3 DO".to_string()), (1, "x := 1;".to_string()), (0, "END_FOR;".to_string())]);
+    }
+    v
+}
+
+fn align_decl_victims() -> Vec<Lines> {
+    let mut v: Vec<Lines> = Vec::new();
+    for x in ALIGN_OPS {
+        v.push(one(format!("s1 : STRING := 'a{x}b';")));
+        v.push(vec![(0, "s2 : STRING :=".to_string()), (0, format!("'a{x}b';"))]);
+        v.push(one(format!("s3 : STRING := CONCAT('a{x}b', 'c');")));
+        v.push(one(format!("s4 : WSTRING[20] := \"w{x}\";")));
+        v.push(one(format!("'k{x}v' : INT;")));
+        for c in [format!("(* a {x} b *)"), format!("{{attribute 'k {x} v'}}")] {
+            v.push(one(c.clone()));
+            v.push(one(format!("{c} y : INT;")));
+            v.push(one(format!("{c} y : INT := 1;")));
+            v.push(one(format!("y : INT; {c}")));
+        }
+        v.push(one(format!("y : INT; // a {x} b")));
+    }
+    v.push(one("t1 : TOD := TOD#12:00:00;".to_string()));
+    v.push(one("d1 : DT := DT#2020-01-01-12:00:00;".to_string()));
+    v
+}
+
+fn align_decl_neighbours() -> Vec<Lines> {
+    vec![one("neighbour_with_long_name : INT := 2;".to_string()), one("z : INT := 2;".to_string())]
+}
+
+/// Order of victim (V) and neighbour (N) lines.
+pub const ALIGN_ORDER: &[&str] = &["NV", "VN", "NVN"];
+/// What stands between them: nothing (`-`), or one line that interrupts the alignment group.
+pub const ALIGN_SEP: &[&str] = &["-", "", "// sep", "{sep}", "(* sep *)"];
+/// (indentation unit the source is written with, line ending)
+pub const ALIGN_LAYOUT: &[(&str, &str)] = &[("", "\n"), ("", "\r\n"), ("    ", "\n"), ("  ", "\r\n"), ("\t", "\n")];
+
+pub fn align_text(c: &AlignCtx, victim: &Lines, neighbour: &Lines, second: &Lines, order: &str, sep: &str, layout: (&str, &str)) -> String {
+    let mut lines: Vec<(u8, String)> = c.head.iter().map(|(l, t)| (*l, t.to_string())).collect();
+    let mut label = 0usize;
+    let mut n_seen = 0;
+    for (k, part) in order.chars().enumerate() {
+        if k > 0 && sep != "-" {
+            lines.push((c.slot, sep.to_string()));
+        }
+        let src = match part {
+            'V' => victim,
+            _ => {
+                n_seen += 1;
+                if n_seen == 1 { neighbour } else { second }
+            }
+        };
+        for (i, (l, t)) in src.iter().enumerate() {
+            let mut t = t.clone();
+            if c.label && i == 0 {
+                label += 1;
+                t = format!("{}: {t}", ["1", "22", "333"][label - 1]);
+            }
+            lines.push((c.slot + l, t));
+        }
+    }
+    lines.extend(c.foot.iter().map(|(l, t)| (*l, t.to_string())));
+    let mut s = String::new();
+    for (l, t) in lines {
+        if !t.is_empty() {
+            s.push_str(&layout.0.repeat(l as usize));
+            s.push_str(&t);
+        }
+        s.push_str(layout.1);
+    }
+    s
+}
+
+/// The texts of family (v), in three disjoint sets. Centre = every context x every victim with the
+/// long-name neighbour in front, adjacent, flush-left LF source: (1) the centre texts of the
+/// statement-list and VAR contexts, (2) those of the other contexts, (3) everything off the centre:
+/// quick = a star around the centre of the statement-list / VAR contexts (every other dimension
+/// varied alone against every victim), thorough = the product in every context.
+pub fn align_texts(quick: bool) -> (Vec<String>, Vec<String>, Vec<String>) {
+    let mut seen: HashSet<String> = HashSet::new();
+    // centre texts of the two star contexts / of the other contexts / everything off the centre
+    let mut core_star = Vec::new();
+    let mut core = Vec::new();
+    let mut all = Vec::new();
+    let base = ALIGN_LAYOUT[0];
+    for c in ALIGN_CTX {
+        let (vs, ns) = if c.decl { (align_decl_victims(), align_decl_neighbours()) } else { (align_victims(c.term, c.stmt), align_neighbours(c.term, c.stmt)) };
+        let second = &ns[1];
+        let star = c.name == "body" || c.name == "var";
+        let mut add = |t: String, is_core: bool| {
+            if seen.insert(t.clone()) {
+                if !is_core {
+                    all.push(t);
+                } else if star {
+                    core_star.push(t);
+                } else {
+                    core.push(t);
+                }
+            }
+        };
+        for v in &vs {
+            add(align_text(c, v, &ns[0], second, "NV", "-", base), true);
+        }
+        for v in &vs {
+            for (ni, n) in ns.iter().enumerate() {
+                for order in ALIGN_ORDER {
+                    for sep in ALIGN_SEP {
+                        for layout in ALIGN_LAYOUT {
+                            let off_centre = [ni != 0, *order != "NV", *sep != "-", *layout != base].iter().filter(|b| **b).count();
+                            let wanted = if quick {
+                                // star: one dimension off the centre at a time; in addition the
+                                // multi-line FOR neighbour behind the victim (its header line only
+                                // touches the victim when it comes second). The three-part order, the
+                                // pragma / block-comment separators and the 2-blank layout are left
+                                // to the thorough tier.
+                                star && *order != "NVN"
+                                    && !matches!(*sep, "{sep}" | "(* sep *)")
+                                    && *layout != ALIGN_LAYOUT[3]
+                                    && (off_centre <= 1 || (off_centre == 2 && n.len() > 1 && *order == "VN"))
+                            } else {
+                                // product of victim x neighbour x order x (separator | layout); the
+                                // three-part order only adjacent in the base layout
+                                if *order == "NVN" { *sep == "-" && *layout == base } else { *sep == "-" || *layout == base }
+                            };
+                            if wanted {
+                                add(align_text(c, v, n, second, order, sep, *layout), false);
+                            }
+                        }
+                    }
+                }
+            }
+        }
+    }
+    (core_star, core, all)
+}
+
+// ------------------------------------------------------------------------------------------------
 // the explorer
 // ------------------------------------------------------------------------------------------------
 
@@ -2032,6 +2359,18 @@ pub fn run(ctx: &Ctx) -> EngineResult {
         }
     }
     let wrap_texts: Vec<TextInfo> = CRAFTED.iter().map(|s| TextInfo::new(s.to_string())).collect();
+    let (align_core_star, align_core_rest, align_off) = align_texts(quick);
+    let align_core_star: Vec<TextInfo> = align_core_star.into_iter().map(TextInfo::new).collect();
+    let align_core: Vec<TextInfo> = align_core_star.iter().map(|t| t.text.clone()).chain(align_core_rest).map(TextInfo::new).collect();
+    let align_off: Vec<TextInfo> = align_off.into_iter().map(TextInfo::new).collect();
+    let align_all: Vec<&TextInfo> = align_core.iter().chain(align_off.iter()).collect();
+    // configurations under which the alignment of assignments is not switched off
+    let align_on: Vec<Cfg> = cover.iter().copied().filter(|c| c.name(5) != "false").collect();
+    rep.set("align_configs_alignment_on", align_on.len() as u64);
+    rep.set("align_texts", align_all.len() as u64);
+    rep.set("align_texts_core", align_core.len() as u64);
+    rep.set("align_texts_valid_program", align_all.iter().filter(|t| t.stratum == "valid").count() as u64);
+    rep.set("align_texts_lexer_error", align_all.iter().filter(|t| t.view.has_error).count() as u64);
     rep.set("pair_tokens", TOKENS.len() as u64);
     rep.set("pair_texts", (pair_texts.len() * pair_texts[0].len()) as u64);
     rep.set("mixed_texts", mixed.len() as u64);
@@ -2043,6 +2382,18 @@ pub fn run(ctx: &Ctx) -> EngineResult {
     // three far-apart configurations for the big families of the quick tier (default; 2 blanks,
     // upper case, compact, max 40; tabs, lower case, siemens profile, max 20)
     let few: Vec<Cfg> = vec![DEFAULT_CFG, Cfg([1, 2, 2, 1, 1, 1, 2, 0]), Cfg([2, 3, 0, 0, 0, 0, 1, 2])];
+    // (v) alignment-sensitive line groups: the centre texts under all covering configs, the texts
+    // off the centre under those that leave the alignment of assignments on (with alignment off
+    // they only repeat what the centre texts show); centre texts also with every on-type position
+    // (quick: statement-list / VAR contexts) / every range and on-type position under the wrapping
+    // configurations (thorough)
+    push(&mut jobs, "align", &align_core, &cover, Extra::None, chunk);
+    push(&mut jobs, "align", &align_off, if quick { &align_on } else { &cover }, Extra::None, chunk);
+    if quick {
+        push(&mut jobs, "align", &align_core_star, &wrap_cfgs[..2], Extra::OnType, 32);
+    } else {
+        push(&mut jobs, "align", &align_core, &wrap_cfgs, Extra::RangesAndOnType { alt_range_form: false }, 4);
+    }
     // (iv) crafted programs: all covering configs, all ranges, all on-type positions
     push(&mut jobs, "crafted", &wrap_texts, &cover, Extra::RangesAndOnType { alt_range_form: false }, 1);
     push(&mut jobs, "crafted", &wrap_texts, if quick { &wrap_cfgs[..5] } else { &wrap_cfgs }, Extra::RangesAndOnType { alt_range_form: true }, 1);
@@ -2072,6 +2423,8 @@ pub fn run(ctx: &Ctx) -> EngineResult {
     push(&mut jobs, "corpus-line-mutation", &corpus_mut, if quick { &few } else { &cover }, Extra::None, 64);
     // (i) thorough: the full product of explicit option values for the pair family
     if !quick {
+        // (v): the centre texts of the statement-list / VAR contexts under the full product as well
+        push(&mut jobs, "align*product", &align_core_star, &product, Extra::None, 1024);
         for (ci, ctxname) in PAIR_CTX.iter().enumerate() {
             let fam: &'static str = match *ctxname {
                 "line" => "pair:line*product",
@@ -2137,6 +2490,9 @@ pub fn run(ctx: &Ctx) -> EngineResult {
     for t in &wrap_texts {
         all_texts.push(("crafted", t));
     }
+    for t in &align_all {
+        all_texts.push(("align", *t));
+    }
     for v in &pair_texts {
         for t in v {
             all_texts.push(("pair", t));
@@ -2196,6 +2552,14 @@ pub fn run(ctx: &Ctx) -> EngineResult {
     if wtotal.changed == 0 {
         return machinery("web seam vacuous: format_source never changed a text");
     }
+    // family (v) is only worth something if the alignment pass acts at all on its texts (on a
+    // correct formatter most victim lines are masked out of alignment, so the share is small: the
+    // unmasked victims - operator text across tokens, typed literal, FOR header, continuation
+    // line - and the 'z := 2' neighbour are the ones that get padded)
+    let align_done = fam_done.get("align").map(|v| v.0).unwrap_or(0);
+    if align_done > 0 && total.align_padded == 0 {
+        return machinery(format!("align family vacuous: alignment never moved an operator in {} results", total.align_bundles));
+    }
     if wtotal.errors > 0 {
         return machinery(format!("web seam: format_source answered an error for {} texts (not checked)", wtotal.errors));
     }
@@ -2204,7 +2568,7 @@ pub fn run(ctx: &Ctx) -> EngineResult {
     distinct.extend(wtotal.hashes.iter().copied());
     rep.set("evaluations", lsp_requests + wtotal.bundles + wtotal.idem_checks);
     rep.set("distinct_nontrivial", distinct.len() as u64);
-    rep.set("rule", "every (text, configuration) of: (i) every ordered pair of the token menu (identifiers, keywords in both cases, every operator / punctuation token, plain / based / real / typed / time / date literals, strings containing comment openers and separators, direct addresses) in 6 line contexts (alone, written without a blank, inside an assignment, at the end of an assignment, inside a VAR block, inside a long call); (ii) every .st file of the repository and every single-line deletion / duplication of it; (iii) every sequence of <= L segments (code, block / line / C comments, nested comments, pragmas incl. multi-line, strings containing comment openers and separators) x separator {blank, none, tab} x {LF, CRLF, no final newline} (L = 2 quick, 3 thorough) plus degenerate documents; (iv) hand-written valid programs (long comma lines, typed literals after keyword operators, literals with ':' in VAR blocks, multi-line pragmas, dense / blank-separated operators, nested blocks in lower case). Configurations: a pairwise covering array over the 8 option dimensions incl. 'unset' (indent via FormattingOptions or settings, keyword case, spacing style, end-keyword style, two alignment flags, max line length, vendor profile via trust-lsp.toml); quick uses 3 far-apart configurations for the larger families; thorough adds the full product of the explicit option values for the 'alone' context of (i). Per (text, cfg): textDocument/formatting and re-formatting of the result; for (ii, files <= 40 lines) and (iv) every line interval by rangeFormatting and every line end x advertised trigger character by onTypeFormatting. Web IDE: every text once through WebIdeState::format_source (+ re-formatting). distinct_nontrivial = distinct (configuration, formatted text) results in which the formatter changed its input.");
+    rep.set("rule", "every (text, configuration) of: (i) every ordered pair of the token menu (identifiers, keywords in both cases, every operator / punctuation token, plain / based / real / typed / time / date literals, strings containing comment openers and separators, direct addresses) in 6 line contexts (alone, written without a blank, inside an assignment, at the end of an assignment, inside a VAR block, inside a long call); (ii) every .st file of the repository and every single-line deletion / duplication of it; (iii) every sequence of <= L segments (code, block / line / C comments, nested comments, pragmas incl. multi-line, strings containing comment openers and separators) x separator {blank, none, tab} x {LF, CRLF, no final newline} (L = 2 quick, 3 thorough) plus degenerate documents; (iv) hand-written valid programs (long comma lines, typed literals after keyword operators, literals with ':' in VAR blocks, multi-line pragmas, dense / blank-separated operators, nested blocks in lower case); (v) alignment groups: a victim line carrying the text ':=' / '=>' inside a STRING / WSTRING literal (plain, with comma, multi-byte, $', tab), block / C / line comment or pragma (before a real operator, behind it, on a line without one, on a continuation line, alone) or across two tokens (also: ',' inside a long string / comment / pragma, the split text of the wrapping pass), next to a neighbour line whose real operator is further right / left (long name, '=>' call, very long left-hand side, FOR header), in 8 alignment contexts (statement list, IF body, CASE branch, CASE label lines, multi-line call arguments, VAR declarations with initialisers, multi-line initialiser call in VAR, STRUCT fields) x order {NV, VN, NVN} x separator {adjacent, blank, //, pragma, (* *) line} x source layout {flush LF, flush CRLF, 4 blanks, 2 blanks CRLF, tab} (quick: every context with the centre values, and in the statement-list / VAR contexts one dimension off the centre at a time, the off-centre texts under the covering rows that do not switch the alignment of assignments off; thorough: victim x neighbour x order x (separator | layout)). Configurations: a pairwise covering array over the 8 option dimensions incl. 'unset' (indent via FormattingOptions or settings, keyword case, spacing style, end-keyword style, two alignment flags, max line length, vendor profile via trust-lsp.toml); quick uses 3 far-apart configurations for the larger families; thorough adds the full product of the explicit option values for the 'alone' context of (i) and the statement-list / VAR centre texts of (v). Per (text, cfg): textDocument/formatting and re-formatting of the result; for (ii, files <= 40 lines), (iv) and the centre texts of (v) every line interval by rangeFormatting (v: thorough only) and every line end x advertised trigger character by onTypeFormatting. Web IDE: every text once through WebIdeState::format_source (+ re-formatting). distinct_nontrivial = distinct (configuration, formatted text) results in which the formatter changed its input.");
     rep.set("lsp_requests", lsp_requests);
     rep.set("lsp_servers_spawned", pool.spawned.load(Ordering::Relaxed));
     rep.set("lsp_servers_lost_to_crashes", pool.crashed.load(Ordering::Relaxed));
@@ -2219,6 +2583,8 @@ pub fn run(ctx: &Ctx) -> EngineResult {
     rep.set("range_requests_expanded_to_block", total.range_expanded);
     rep.set("ontype_requests", total.ontype_reqs);
     rep.set("ontype_requests_with_edit", total.ontype_nonempty);
+    rep.set("align_bundles", total.align_bundles);
+    rep.set("align_bundles_operator_moved_by_alignment", total.align_padded);
     rep.set("web_texts", wtotal.bundles);
     rep.set("web_texts_changed", wtotal.changed);
     rep.set("exhaustive", exhaustive);
